@@ -24,7 +24,11 @@ FOREIGN_SINKS = {"libc::close"}
 SYSCALL_SOURCES = {319, 279}
 
 INT_TYPES = ("i32", "std::os::fd::RawFd", "libc::c_int")
-CONTAINER_CALLS = ("std::cell::Cell::new",)
+CONTAINER_CALLS = ("std::cell::Cell::new",
+                   # wrappers a tracked value passes through unchanged (a helper returning Result<fd, E> / Option<fd>, `?` at the call site)
+                   "std::ops::Try::branch", "std::result::Result::unwrap", "std::result::Result::expect", "std::option::Option::unwrap", "std::option::Option::expect",
+                   "std::result::Result::map_err", "std::result::Result::ok", "std::option::Option::ok_or", "std::option::Option::ok_or_else",
+                   "std::result::Result::unwrap_or", "std::option::Option::unwrap_or")
 
 # ---- resource domain: the same typestate machinery decides descriptors (default) and heap/mapping pointers
 _FD_DOMAIN = dict(FOREIGN_SOURCES=FOREIGN_SOURCES, FOREIGN_OUT_SOURCES=FOREIGN_OUT_SOURCES, FOREIGN_SINKS=FOREIGN_SINKS,
@@ -243,7 +247,7 @@ class FdEngine:
                 dest = t["dest"]
                 if not dest.get("p"):
                     name = strip_generics(callee_name(t))
-                    holds = name in CONTAINER_CALLS and any(op_place(a) is not None and a["pl"]["l"] in aliases for a in t["args"])
+                    holds = (name in CONTAINER_CALLS or strip_generics(t.get("callee") or "") in CONTAINER_CALLS) and any(op_place(a) is not None and a["pl"]["l"] in aliases for a in t["args"])
                     if holds:
                         aliases.add(dest["l"])
                     else:
